@@ -109,6 +109,11 @@ def value_alphabet(t, cfg: Cfg, ctx: dict, k_limit: int = 8) -> list:
                     out.append("".join(items))
                 else:
                     out.append(items)
+        if isinstance(e, TWchar):
+            # a non-BMP character: one code point, two UTF-16 code units (a valid surrogate pair)
+            for n in lens:
+                if n >= 2:
+                    out.append("\U0001F600" + "W" * (n - 2))
         return out
     if isinstance(t, TStruct):
         if t.union:
